@@ -64,7 +64,11 @@ func rdsNeedsPush(req *model.PushRequest, proxy *model.Proxy) bool {
 	// the service hostname/port/subset (a static string), so it does not change when only
 	// endpoints change. However, if ServiceUpdate is also present, the service definition changed
 	// (ports, labels, etc.) and we need to push RDS.
-	headlessOnly := req.Reason.Has(model.HeadlessEndpointUpdate) && !req.Reason.Has(model.ServiceUpdate)
+	// Requests are merged while debouncing and queueing, so the optimization is only valid when every
+	// merged trigger was a headless endpoint update. Any other reason (ServiceUpdate, or an EndpointUpdate
+	// full push for a new service or service account, which also carries a ServiceEntry key) means a
+	// ServiceEntry key may stand for a real service change.
+	headlessOnly := req.Reason.Has(model.HeadlessEndpointUpdate) && len(req.Reason) == 1
 	sawServiceEntry := false
 
 	for config := range req.ConfigsUpdated {
